@@ -321,6 +321,12 @@ func init() {
 			if i < 80 {
 				return percentStringCase(i - 72)
 			}
+			if i >= 80+3*nearTwinVariants && i < 80+3*nearTwinVariants+8 {
+				return sharedMemberStringCase(i - 80 - 3*nearTwinVariants)
+			}
+			if i >= 80+3*nearTwinVariants+8 {
+				return nil
+			}
 			if i < 80+3*nearTwinVariants {
 				if v := (i - 80) % nearTwinVariants; v >= 2 && v <= 5 {
 					return nearTwinCase(i - 80)
@@ -345,6 +351,10 @@ func init() {
 				return nestedCompositionArrayCase(i)
 			}
 			i -= 3
+			if i < 8 {
+				return exactSizeGridCase(i)
+			}
+			i -= 8
 			if i > ctx.N(24, 96) && i <= ctx.N(24, 96)+12 {
 				return nullableDefCase(i - ctx.N(24, 96) - 1)
 			}
@@ -1154,6 +1164,8 @@ func refDefaultCase(i int) *sem.Case {
 		root.Props = append(root.Props, sg.Prop{Name: key, S: &sg.Schema{Ref: "#/$defs/" + d.name, Target: d.s, Default: d.def, HasDefault: true}})
 		all = append(all, jsonx.KV{K: key, V: d.other})
 	}
+	// the declared draft does not change what a default next to a reference means to the generator
+	root.Version = []string{"", "http://json-schema.org/draft-07/schema#", "http://json-schema.org/draft-04/schema#", "https://json-schema.org/draft/2020-12/schema", "http://json-schema.org/draft-06/schema#"}[(i/2)%5]
 	c := &sem.Case{Root: root, Sig: fmt.Sprintf("ref-default/%d", i%16)}
 	if i%2 == 1 {
 		c.Args = []string{"--extra-imports"}
@@ -2184,6 +2196,10 @@ func strataForC01(ctx *Ctx) []*sem.Case {
 	add(12, multiTypeRuleCase)
 	add(18, derivedNameCollisionCase)
 	add(8, percentStringCase)
+	add(24, branchFieldCollisionCase)
+	add(8, sharedMemberStringCase)
+	add(8, exactSizeGridCase)
+	add(12, sizedTwinCase)
 	add(3*nearTwinVariants, nearTwinCase)
 	add(72, emptyIntervalCase)
 	add(12, propertyCountCase)
